@@ -205,7 +205,7 @@ def _standalone_history(scenario: str) -> dict[str, Any]:
     backend = harness.HarnessBackend()
     lsock = socket.socket(socket.AF_INET, socket.SOCK_STREAM)
     lsock.bind(("127.0.0.1", 0))
-    init_delay = 0.4 if scenario == "close_during_setup" else 0.0
+    init_delay = 0.4 if scenario in ("close_during_setup", "thread_helper_shutdown_during_startup") else 0.0
 
     class H(AsyncStreamRequestHandler[str, str]):
         async def service_init(self, exit_stack: Any, server: Any) -> None:
@@ -325,6 +325,48 @@ def _standalone_history(scenario: str) -> dict[str, Any]:
             d.join(5)
             threads[0].join(5)
             ev("probe", observe=True)
+        elif scenario == "simultaneous_serves":
+            # two threads enter serve_forever() together: both are held at the server's first lock, then released
+            holder = next((getattr(server, n) for n in dir(server) if n.endswith("__close_lock")), None)
+            lk = holder.get() if holder is not None and hasattr(holder, "get") else None
+            if lk is not None:
+                lk.acquire()
+            spawn(serve, 1)
+            spawn(serve, 2)
+            time.sleep(0.25)
+            if lk is not None:
+                lk.release()
+            t0 = time.monotonic()
+            while time.monotonic() - t0 < 5 and not any(u.flag.is_set() for u in list(ups.values())):
+                time.sleep(0.01)
+            time.sleep(0.3)
+            ev("probe", observe=True)
+            shutdown(3)
+            for t in list(threads):
+                t.join(5)
+            close(3)
+        elif scenario in ("thread_helper", "thread_helper_shutdown_during_startup"):
+            from easynetwork.servers.threads_helper import NetworkServerThread
+
+            helper = NetworkServerThread(server, daemon=True)
+
+            def start(a: int) -> None:
+                ev("tstart_call", a)
+                helper.start()
+                ev("tstart_ret", a)
+
+            st = spawn(start, 1)
+            if scenario == "thread_helper":
+                st.join(5)
+            else:
+                time.sleep(0.15)  # inside the slow service_init
+            shutdown(3)
+            st.join(5)
+            helper.join(5)
+            if helper.is_alive():
+                hang = True
+            ev("probe", observe=True)
+            close(3)
         elif scenario == "shutdown_before_serve":
             shutdown(2)
             spawn(serve, 1)
@@ -348,7 +390,16 @@ def _standalone_history(scenario: str) -> dict[str, Any]:
     return {"events": events, "meta": f"standalone TCP scenario={scenario}"}
 
 
-STANDALONE = ["full_cycle", "close_during_setup", "concurrent_shutdowns", "close_while_serving_then_shutdown", "shutdown_before_serve"]
+STANDALONE = [
+    "full_cycle",
+    "close_during_setup",
+    "concurrent_shutdowns",
+    "close_while_serving_then_shutdown",
+    "shutdown_before_serve",
+    "simultaneous_serves",
+    "thread_helper",
+    "thread_helper_shutdown_during_startup",
+]
 
 
 def run(chk: Check) -> None:
